@@ -290,3 +290,6 @@ def h_sidereal_expr(ctx):
     ctx.vc("mean sidereal time == IAU 1982 expression (mod 1), interval since 0h dropped (zero)", implies(small, near_integer(r - base)))
     ctx.vc("mean sidereal time == IAU 1982 expression (mod 1), interval since 0h >= 1e-10 day",
            implies(not_(small), near_integer(r - base - Num.of(Fraction("1.00273790935")) * dl)))
+
+
+P.frame_check()
